@@ -34,7 +34,7 @@ ASSUMPTIONS = ["per-consumer request times are non-decreasing", "unit factors fr
 NG_FORMS = ["float", "int", "list1", "arr0", "arr1", "quantity", "quantity_conv", "quantity_bad", "bad_shape"]
 G_FORMS = ["array", "array_t", "flat", "list", "masked", "quantity", "quantity_conv", "quantity_bad", "bad_shape",
            "same_obj", "view", "copy_prev"]
-GAPS = [1, 2, 3, 4, 7]
+GAPS = [1, 2, 3, 4, 7, 2, 30, 51]
 
 
 def generate(tape, tier="quick"):
